@@ -77,7 +77,7 @@ def wfOpB (cfg : Cfg) (stale : Bytes) : ChanOp → Bool
   | .send o x =>
     let e := stale ++ x.echo.flatten
     let r := sendPre cfg stale x ++ x.resp.flatten
-    (skipsEcho cfg x.cmd || (!e.isEmpty && exactAtB (echoPred cfg x.cmd) e)) &&
+    (skipsEcho x.cmd || (!e.isEmpty && exactAtB (echoPred cfg x.cmd) e)) &&
       (o.eager || (!r.isEmpty && exactAtB (finalPred cfg o.interim) r))
   | .prompt resp =>
     let e := stale ++ resp.flatten
